@@ -30,7 +30,7 @@ func loadRepo(dir string) (*ssa.Program, *ssa.Package, error) {
 	if packages.PrintErrors(pkgs) > 0 {
 		return nil, nil, fmt.Errorf("package does not type-check")
 	}
-	prog, spkgs := ssautil.Packages(pkgs, ssa.GlobalDebug)
+	prog, spkgs := ssautil.Packages(pkgs, ssa.GlobalDebug|ssa.InstantiateGenerics)
 	prog.Build()
 	if len(spkgs) == 0 || spkgs[0] == nil {
 		return nil, nil, fmt.Errorf("no SSA package")
@@ -281,7 +281,13 @@ func main() {
 			rep.Discharged++
 			rep.ByBackend["structural"]++
 		} else {
-			rep.Failed = append(rep.Failed, FailedOb{so.name, "pkg", "", "", so.why})
+			nm := so.name
+			if nm == "pkg/subset" {
+				// a construct outside the verified subset (defer / recover, select, channels, unsafe, reflect, goroutines
+				// outside the async methods) makes the affected proofs undecided; it is not itself a violation
+				nm = "engine/pkg: construct outside the verified subset: " + so.why
+			}
+			rep.Failed = append(rep.Failed, FailedOb{nm, "pkg", "", "", so.why})
 		}
 	}
 	rep.NamedObls = len(byName)
